@@ -7,15 +7,19 @@
    * under write_mutex: oracle.check (Conflict: return, nothing allocated); seq := log_seq_num,
      log_seq_num += count; oracle.publish; enqueue into `pending` (SLOTS = MAX_CONCURRENT_COMMITS
      slots; `tail + SLOTS == head` -> panic "commit queue overflow"); env.write (WAL).
-   * WAL failure (also BatchTooLarge): oracle.rollback; complete(Err); mark_applied; drop the mutex;
-     publish(); return Err — commit() returns WITHOUT waiting for its queue entry to be dequeued.
+   * every CommitBatch carries `failure: Mutex<Option<Error>>`.
+   * WAL failure (also BatchTooLarge): oracle.rollback; set_failure(e); mark_applied; drop the mutex;
+     publish(); then `complete_rx.await` — commit() WAITS for its queue entry to be dequeued, holding
+     its permit, exactly like a successful commit.
    * apply (outside the mutex): MemTable::add inserts the entries one by one; an error after k
-     entries leaves those k in the memtable.  Apply failure: oracle.rollback; complete(Err);
-     mark_applied; publish(); return Err — again without waiting.
-   * success: mark_applied; publish(); await the completion (sent by whoever dequeues the entry).
+     entries leaves those k in the memtable.  Apply failure: oracle.rollback;
+     set_failure(CommitFail); then the common tail.
+   * common tail (success and apply failure): mark_applied; publish(); await the completion.
    * publish(): dequeue applied entries from the tail while the oldest is applied; for each one
-     visible := max(visible, seq + count - 1) — failed entries included — and complete(Ok) (a no-op if
-     the completion was already sent).
+     visible := max(visible, seq + count - 1) — failed entries included — and
+     complete(take_failure() -> Err(e) | Ok(())): the committer is woken with its own outcome only
+     once its entry has left the queue.  Permits held == committers between acquire and return;
+     every queue entry belongs to one of them.
    A reader that starts at horizon h sees a memtable entry iff its sequence number is <= h.
    The oracle is not part of this model (Conc/CommitSeq.v has it). *)
 From Coq Require Import List NArith Arith Bool.
@@ -23,7 +27,7 @@ Import ListNotations.
 
 Inductive phase :=
 | PIdle | PPermit | PQueued            (* enqueued, not yet marked applied *)
-| PWait                                (* applied, waiting for its completion *)
+| PWait (ok : bool)                    (* applied (ok = no failure recorded), waiting for its completion *)
 | PDone (ok : bool).                   (* commit() returned Ok / Err *)
 
 Record ent := { e_id : nat; e_seq : nat; e_cnt : nat; e_applied : bool }.
@@ -81,10 +85,10 @@ Fixpoint seq_entries (seq k i : nat) : list (nat * nat) :=
 Definition upd (s : pst) (free : nat) (q : list ent) (ph : list (nat * phase)) (next vis : nat) (mem : list (nat * nat)) : pst :=
   {| p_free := free; p_q := q; p_ph := ph; p_next := next; p_visible := vis; p_mem := mem; p_panic := p_panic s |}.
 
-(* mark the entry of i applied, publish, leave with phase ph and (when `release`) give the permit back *)
-Definition applied_and_publish (s : pst) (i : nat) (mem : list (nat * nat)) (ph : phase) (release : bool) : pst :=
+(* mark the entry of i applied, publish, go on waiting with phase ph (the permit is kept) *)
+Definition applied_and_publish (s : pst) (i : nat) (mem : list (nat * nat)) (ph : phase) : pst :=
   let '(q', vis') := publish (q_mark i (p_q s)) (p_visible s) in
-  upd s (if release then S (p_free s) else p_free s) q' (ph_set i ph (p_ph s)) (p_next s) vis' mem.
+  upd s (p_free s) q' (ph_set i ph (p_ph s)) (p_next s) vis' mem.
 
 Definition pstep (s : pst) (l : label) : option pst :=
   if p_panic s then None else
@@ -111,25 +115,25 @@ Definition pstep (s : pst) (l : label) : option pst :=
     end
   | LWalFail i =>
     match ph_get i (p_ph s) with
-    | PQueued => Some (applied_and_publish s i (p_mem s) (PDone false) true)
+    | PQueued => Some (applied_and_publish s i (p_mem s) (PWait false))
     | _ => None
     end
   | LApplyOk i =>
     match ph_get i (p_ph s), q_find i (p_q s) with
-    | PQueued, Some e => Some (applied_and_publish s i (p_mem s ++ seq_entries (e_seq e) (e_cnt e) i) PWait false)
+    | PQueued, Some e => Some (applied_and_publish s i (p_mem s ++ seq_entries (e_seq e) (e_cnt e) i) (PWait true))
     | _, _ => None
     end
   | LApplyFail i k =>
     match ph_get i (p_ph s), q_find i (p_q s) with
     | PQueued, Some e =>
       if k <? e_cnt e
-      then Some (applied_and_publish s i (p_mem s ++ seq_entries (e_seq e) k i) (PDone false) true)
+      then Some (applied_and_publish s i (p_mem s ++ seq_entries (e_seq e) k i) (PWait false))
       else None
     | _, _ => None
     end
   | LFinish i =>
     match ph_get i (p_ph s), q_find i (p_q s) with
-    | PWait, None => Some (upd s (S (p_free s)) (p_q s) (ph_set i (PDone true) (p_ph s)) (p_next s) (p_visible s) (p_mem s))
+    | PWait ok, None => Some (upd s (S (p_free s)) (p_q s) (ph_set i (PDone ok) (p_ph s)) (p_next s) (p_visible s) (p_mem s))
     | _, _ => None
     end
   end.
@@ -154,14 +158,3 @@ End PipeFail.
 (* apply fails after inserting part of the batch *)
 Definition known_partial_apply (t : list label) : bool :=
   existsb (fun l => match l with LApplyFail _ (S _) => true | _ => false end) t.
-(* a failing commit returns (and releases its permit) while its queue entry is still pending behind an
-   older unapplied one: evaluated on the state BEFORE the failing step *)
-Definition early_release (s : pst) (l : label) : bool :=
-  match l with
-  | LWalFail i | LApplyFail i _ =>
-    match p_q s with
-    | e :: _ => negb (Nat.eqb (e_id e) i) && negb (e_applied e)
-    | [] => false
-    end
-  | _ => false
-  end.
